@@ -7,6 +7,8 @@ export CARGO_NET_OFFLINE=true
 mkdir -p target evidence
 (cd harness && cargo build --release 2>&1 | tail -n 3)
 (cd /repo && RUSTFLAGS="--cfg dandavison_delta_verif -C overflow-checks=on" cargo build --release --offline --target-dir "$ROOT/target/bin" 2>&1 | tail -n 3)
+# the libFuzzer target of the coverage-guided (thorough) tier; optional: ./check rebuilds it when needed
+(cd harness && RUSTFLAGS="--cfg dandavison_delta_verif -C overflow-checks=on" cargo +nightly fuzz build -s none -O --fuzz-dir fuzz fuzz_prop 2>&1 | tail -n 2) || echo "note: libFuzzer target not built"
 cp harness/target/release/stubtool target/stubtool
 mkdir -p target/shim && cc -shared -fPIC -O1 -o target/shim/writefail.so shim/writefail.c -ldl
 echo "setup done"
